@@ -143,7 +143,7 @@ class Airplane:
             raise IOError("Use of 'rigid_body' state type is no longer supported and the 'state_type' key in general is depreciated. See documentation for details.")
 
         # Get position and angular rates
-        self.p_bar = np.asarray(import_value("position", kwargs, self._unit_sys, [0.0, 0.0, 0.0]), dtype=float) # (numbers written as integers stay numbers)
+        self.p_bar = np.array(import_value("position", kwargs, self._unit_sys, [0.0, 0.0, 0.0]), dtype=float) # (a copy: numbers written as integers stay numbers, and the caller keeps its own array)
 
         # Set up orientation quaternion
         self.q = import_value("orientation", kwargs, self._unit_sys, [1.0, 0.0, 0.0, 0.0]) # Default aligns the aircraft with the Earth-fixed coordinates
@@ -186,7 +186,7 @@ class Airplane:
             raise IOError("{0} is not an allowable velocity definition.".format(v_value))
 
         # Set angular rates
-        w_raw = np.asarray(import_value("angular_rates", kwargs, self._unit_sys, [0.0, 0.0, 0.0]), dtype=float)
+        w_raw = np.array(import_value("angular_rates", kwargs, self._unit_sys, [0.0, 0.0, 0.0]), dtype=float)
         self.angular_rate_frame = kwargs.get("angular_rate_frame", "body")
 
         if self.angular_rate_frame == "body": # Body-fixed
